@@ -4,6 +4,7 @@
                     → res=<r1>,<r2>…;wire=<w1>,<w2>…      r = ok|raised|ignored|died ; w = nk<e> | sr<e> | ua:<kind><e> | ir<e>
     tconn <given|none> <presented> <0|1>    key = <namehex>:<blobhex>      → outcome
     sconn <none | key,key…> <presented> <0|1>                              → outcome
+    sconn2 <system: none | key,…> <user: none | key,…> <presented> <0|1>   → outcome (system store consulted first)
     name <hosthex> <port>                                                  → hex of the known-hosts name
 -/
 import PV.Model.ClientGuard
@@ -69,6 +70,12 @@ def stepLine (line : String) : String :=
     match (if k == "none" then some none else ((k.splitOn ",").mapM parseKey).map some), parseKey p with
     | some kn, some pk => if pol == "1" || pol == "0" then showOutcome (sshClientConnect kn pk (pol == "1")) else "bad-op"
     | _, _ => "bad-op"
+  | ["sconn2", sy, us, p, pol] =>
+    let pk := fun (k : String) => if k == "none" then some none else ((k.splitOn ",").mapM parseKey).map some
+    match pk sy, pk us, parseKey p with
+    | some a, some b, some c =>
+      if pol == "1" || pol == "0" then showOutcome (sshClientConnect2 a b c (pol == "1")) else "bad-op"
+    | _, _, _ => "bad-op"
   | ["name", h, port] =>
     match ofHex? h, port.toNat? with
     | some hb, some n => toHexTok (hostKeyName hb n (toString n).toUTF8.toList)
